@@ -12,9 +12,9 @@ Fixpoint trace (p : policy) (st : state) (ops : list op) : list (list ev * state
   | o :: r => let '(st1, e1) := step p st o in (e1, st1) :: trace p st1 r
   end.
 
-(* payload literal: runs (byte, count) *)
-Definition pl (runs : list (N * N)) : list N :=
-  flat_map (fun r => repeat (fst r) (N.to_nat (snd r))) runs.
+(* payload literal: runs, each packed as 256 * count + byte (keeps the generated case files small) *)
+Definition pl (runs : list N) : list N :=
+  flat_map (fun r => repeat (N.modulo r 256) (N.to_nat (N.div r 256))) runs.
 
 Fixpoint rle_go (cur cnt : N) (l : list N) : list (N * N) :=
   match l with
@@ -24,7 +24,10 @@ Fixpoint rle_go (cur cnt : N) (l : list N) : list (N * N) :=
 Definition rle (l : list N) : list (N * N) :=
   match l with [] => [] | x :: r => rle_go x 1%N r end.
 
-Definition enc_rle (l : list N) : T := Tlist (fun r => Tpair (TN (fst r)) (TN (snd r))) (rle l).
+(* the OS accepts whatever it is offered (the harness' accept-all outcome is k = 10^9) *)
+Definition full : op := Tick (Accept 1000000000%N).
+
+Definition enc_rle (l : list N) : T := Tlist (fun r => TN (256 * snd r + fst r)) (rle l).
 
 Definition enc_send (e : ev) : list T :=
   match e with
@@ -37,18 +40,23 @@ Definition is_sockclose (e : ev) := match e with SockClose => true | _ => false 
 Definition is_error (e : ev) := match e with EvError => true | _ => false end.
 Definition is_disc (e : ev) := match e with EvDisc => true | _ => false end.
 
+Definition bit (b : bool) (w : Z) : Z := if b then w else 0%Z.
+
+(* one record: [sends; flags; buffered bytes]
+   flags = 32*closereq + 16*descriptor closed in this op + 8*error event + 4*disconnect event
+           + 2*closed afterwards + writer interest afterwards;
+   closereq and the number of buffered bytes are internal (read from _closeflag/_closeq and
+   _buffer/_buffers): compared only when the harness could read them ([withint]) *)
 Definition enc_rec (withint : bool) (r : list ev * state) : T :=
   let '(evs, st) := r in
+  let cr := match st with Closed => false | Open s => withint && closereq s end in
+  let nb := match st with Closed => 0%nat | Open s => if withint then length (concat (buf s)) else 0%nat end in
   Tl [ Tl (flat_map enc_send evs);
-       Tbool (existsb is_sockclose evs); Tbool (existsb is_error evs); Tbool (existsb is_disc evs);
-       Tbool (match st with Closed => true | Open _ => false end);
-       Tbool (match st with Closed => false | Open s => writing s end);
-       if withint then
-         match st with
-         | Closed => Tl [Tpair (Tl []) (Tbool false)]
-         | Open s => Tl [Tpair (enc_rle (concat (buf s))) (Tbool (closereq s))]
-         end
-       else Tl [] ].
+       Tn (bit cr 32 + bit (existsb is_sockclose evs) 16 + bit (existsb is_error evs) 8
+           + bit (existsb is_disc evs) 4
+           + bit (match st with Closed => true | Open _ => false end) 2
+           + bit (match st with Closed => false | Open s => writing s end) 1)%Z;
+       Tnat nb ].
 
 Definition obs_run (k : kind) (withint : bool) (ops : list op) : T :=
   Tlist (enc_rec withint) (trace (fixed k) init ops).
